@@ -92,8 +92,8 @@ bool class_in_scope(const std::string &prop, const std::string &cls, int mode, b
   }
   if (prop == "C14") return mode == M_COUNT && model_cls;
   if (prop == "C15") {
-    if (cls == "fresh_twin" || cls == "prefix_modified") return true;
-    return model_cls && after_explicit_offset;
+    // the fresh-instance comparison is the oracle; disagreement of both with the model is another property's business
+    return cls == "fresh_twin" || cls == "prefix_modified" || cls == "carryover";
   }
   if (prop == "C17") {
     if (cls == "fault_ret" || cls == "file_content" || cls == "prefix_modified") return true;
@@ -591,6 +591,72 @@ static void exec_asm(Run &R, TaskRt &T, int ti, int oi, const Op &op) {
     refresh_mirror(W, wv, 0);
   }
 
+  // ---- fresh twin (C15): the same call on a new instance brought to the same settings.  Compared before
+  // the model is consulted: history independence is a statement about two instances of the same tree.
+  if (op.fresh_twin && !a.via_file && !m.chunk_unknown) {
+    // a library-managed buffer is compared with a fresh library-managed buffer as long as the start offset
+    // lies within what a new instance can reach (its first growth quantum ahead); beyond that with a large
+    // caller buffer (C08's equivalence)
+    const bool fresh_internal = !m.external && start <= 11900;
+    long ncap = m.external ? m.cap : std::max<long>(65536, std::max<long>(off, start) + 8192);
+    int eb = fresh_internal ? -1 : extbuf_new((size_t)ncap, op.guard ^ 1, (op.fill == 0) ? 0xFF : 0x00, op.uid ^ 0x5555);
+    if (!fresh_internal && eb < 0) return;
+    lib::inst_t fal = nullptr;
+    int fret = -99, foff = -1, fcount = 0x5a5a5a5a;
+    std::vector<uint8_t> fcopy;
+    char *tb = textbuf_new(a.text, a.counting);
+    T.actx.reset_op(nullptr, op.uid);
+    int fj = in_lib(R, T.actx, [&] {
+      fal = fresh_internal ? lib::create(nullptr, 0) : lib::create(extbuf_ptr(eb), (int)ncap);
+      if (!fal) return;
+      lib::setter(fal, lib::S_MOV_IMM, m.mov);
+      lib::setter(fal, lib::S_SWAP, m.swap);
+      lib::setter(fal, lib::S_NOBASE, m.nobase);
+      if (m.chunk > 0) lib::set_chunk(fal, (size_t)m.chunk);
+      lib::set_offset(fal, (int)start);
+      fret = a.counting ? lib::count_str(fal, tb, (int)a.c, &fcount, false) : lib::asm_str(fal, tb, false);
+      foff = lib::get_offset(fal);
+      if (fresh_internal && fret == 0 && foff >= start) {
+        const uint8_t *code = (const uint8_t *)lib::get_code(fal, false);
+        Island *fis = island_of(code);
+        if (fis && code + foff <= fis->base + fis->len) fcopy.assign(code, code + foff);
+      }
+      lib::destroy(fal);
+    });
+    R.st.fresh_twins++;
+    if (fresh_internal) R.st.bump("fresh_twin_internal");
+    if (fj != J_NONE) {
+      crashed(R, ti, oi, &op, T.actx, fj, nullptr);
+      if (eb >= 0) extbuf_free(eb);
+      return;
+    }
+    if (fresh_internal && fret == 0 && (long)fcopy.size() != foff) {
+      violate(R, ti, oi, &op, "code_ptr", "fresh instance: asm_get_code does not point at a live mapping holding [0, offset)", a.mode, false, explicit_off);
+      return;
+    }
+    const uint8_t *fp = fresh_internal ? fcopy.data() : extbuf_ptr(eb);
+    char d[240];
+    bool bad = false;
+    if (fret != ret || (ret == 0 && foff != off)) {
+      snprintf(d, sizeof d, "after this history the call gave ret/offset %d/%d, a fresh instance with the same settings and offset %ld gives %d/%d", ret, off,
+               start, fret, foff);
+      bad = true;
+    } else if (ret == 0 && off >= start && off <= cv.cap && off <= ncap && memcmp(fp + start, cv.p + start, (size_t)(off - start))) {
+      long q = start;
+      while (q < off && fp[q] == cv.p[q]) q++;
+      snprintf(d, sizeof d, "byte at offset %ld is %02x after this history, %02x on a fresh instance with the same settings", q, cv.p[q], fp[q]);
+      bad = true;
+    } else if (ret == 0 && a.counting && fcount != count_out) {
+      snprintf(d, sizeof d, "count %d after this history, %d on a fresh instance", count_out, fcount);
+      bad = true;
+    }
+    if (eb >= 0) extbuf_free(eb);
+    if (bad) {
+      violate(R, ti, oi, &op, "fresh_twin", d, a.mode, m.external, explicit_off);
+      return;
+    }
+  }
+
   AsmCheck k;
   k.m = &m;
   k.lines = &a.lines;
@@ -688,58 +754,6 @@ static void exec_asm(Run &R, TaskRt &T, int ti, int oi, const Op &op) {
   if (a.mode == M_COUNT) R.ev((uint64_t)count_out);
   (void)hi_before;
 
-  // ---- fresh twin (C15): the same final call on a new instance brought to the same settings
-  if (op.fresh_twin && !a.via_file) {
-    long ncap = m.external ? m.cap : std::max<long>(65536, k.end + 4096);
-    int eb = extbuf_new((size_t)ncap, op.guard ^ 1, (op.fill == 0) ? 0xFF : 0x00, op.uid ^ 0x5555);
-    if (eb < 0) return;
-    lib::inst_t fal = nullptr;
-    int fret = -99, foff = -1, fcount = 0x5a5a5a5a;
-    char *tb = textbuf_new(a.text, a.counting);
-    T.actx.reset_op(nullptr, op.uid);
-    int fj = in_lib(R, T.actx, [&] {
-      fal = lib::create(extbuf_ptr(eb), (int)ncap);
-      if (!fal) return;
-      lib::setter(fal, lib::S_MOV_IMM, m.mov);
-      lib::setter(fal, lib::S_SWAP, m.swap);
-      lib::setter(fal, lib::S_NOBASE, m.nobase);
-      if (m.chunk > 0) lib::set_chunk(fal, (size_t)m.chunk);
-      lib::set_offset(fal, (int)start);
-      fret = a.counting ? lib::count_str(fal, tb, (int)a.c, &fcount, false) : lib::asm_str(fal, tb, false);
-      foff = lib::get_offset(fal);
-      lib::destroy(fal);
-    });
-    R.st.fresh_twins++;
-    if (fj != J_NONE) {
-      // the fresh instance crashed: not this instance's history; report as crash of the call
-      crashed(R, ti, oi, &op, T.actx, fj, nullptr);
-      extbuf_free(eb);
-      return;
-    }
-    const uint8_t *fp = extbuf_ptr(eb);
-    char d[240];
-    bool bad = false;
-    if (fret != ret || foff != off) {
-      snprintf(d, sizeof d, "after this history the call gave ret/offset %d/%d, a fresh instance with the same settings and offset %ld gives %d/%d", ret, off,
-               start, fret, foff);
-      bad = true;
-    } else if (memcmp(fp + start, cv.p + start, (size_t)(off - start))) {
-      long q = start;
-      while (q < off && fp[q] == cv.p[q]) q++;
-      snprintf(d, sizeof d, "byte at offset %ld is %02x after this history, %02x on a fresh instance with the same settings", q, cv.p[q], fp[q]);
-      bad = true;
-    } else if (a.counting && fcount != count_out) {
-      snprintf(d, sizeof d, "count %d after this history, %d on a fresh instance", count_out, fcount);
-      bad = true;
-    }
-    long dd = 0;
-    if (!bad && !extbuf_canary_ok(eb, &dd)) {
-      snprintf(d, sizeof d, "fresh instance wrote outside its buffer at %+ld", dd);
-      bad = true;
-    }
-    extbuf_free(eb);
-    if (bad) violate(R, ti, oi, &op, "fresh_twin", d, a.mode, m.external, explicit_off);
-  }
 }
 
 // ---- other operations -------------------------------------------------------------------------------------------------
@@ -952,7 +966,7 @@ static void exec_bin_file(Run &R, TaskRt &T, int ti, int oi, const Op &op) {
     violate(R, ti, oi, &op, "fault_ret", d, M_PLAIN, I.m.external, false, FR_FAULT, true);
     return;
   }
-  if (!fired && path_ok && ret != 0) {
+  if (!fired && path_ok && ret != 0 && T.ctx.soft_faults == 0) {  // after a transient short write giving up is allowed
     snprintf(d, sizeof d, "asm_create_bin_file returned %d for a writable path", ret);
     violate(R, ti, oi, &op, "binfile_ret", d, M_PLAIN, I.m.external, false, 0, true);
     return;
